@@ -89,3 +89,68 @@ Definition classify_step (pats : dict N) (mx : N) (r : classification) (o : labe
 Definition classify_outputs (pats : dict N) (leaves outs : list label) : classification :=
   fold_left (classify_step pats (max_pattern (N.of_nat (length leaves)))) outs
             (mkClass (found_of_leaves pats leaves) [] [] [] []).
+
+(* ---- _get_subcircuits: the cut filtering ----
+   cut_nodes maps a cut (tuple of labels) to a set of nodes; a missing key reads as the empty set. *)
+Definition cm_get {V} (m : list (list label * V)) (k : list label) (dflt : V) : V := py_adict_get labels_eqb m k dflt.
+Definition cm_set {V} (m : list (list label * V)) (k : list label) (v : V) : list (list label * V) :=
+  py_adict_set labels_eqb m k v.
+
+(* is_nested_cut(cut1, cut2): every gate of cut1 is a node of some sub-cut of cut2 *)
+Definition nested_cut (cn : list (list label * list label)) (cut1 cut2 : list label) : bool :=
+  forallb (fun g => existsb (fun sub => memb g (cm_get cn sub [])) (py_powerset cut2)) cut1.
+
+Fixpoint take_while {A} (p : A -> bool) (l : list A) : list A :=
+  match l with
+  | [] => []
+  | x :: r => if p x then x :: take_while p r else []
+  end.
+
+(* one cut of the (length-sorted) list: it is dropped when a sub-cut of it was dropped, when it is nested in a cut
+   kept so far, or when it is nested in a later cut that is not longer; is_removed records the dropped cuts *)
+Definition filter_step (cn : list (list label * list label)) (cuts : list (list label))
+           (st : list (list label) * list (list label * bool)) (ic : N * list label)
+  : list (list label) * list (list label * bool) :=
+  let good := fst st in
+  let cut := snd ic in
+  let mark (b : bool) (r : list (list label * bool)) := if b then cm_set r cut true else r in
+  let rem1 := mark (existsb (fun sub => cm_get (snd st) sub false) (py_powerset cut)) (snd st) in
+  if cm_get rem1 cut false then (good, rem1) else
+  let rem2 := mark (existsb (nested_cut cn cut) good) rem1 in
+  if cm_get rem2 cut false then (good, rem2) else
+  let later := take_while (fun nc => (py_len nc <=? py_len cut)%N) (skipn (S (N.to_nat (fst ic))) cuts) in
+  let rem3 := mark (existsb (nested_cut cn cut) later) rem2 in
+  if cm_get rem3 cut false then (good, rem3) else (good ++ [cut], rem3).
+
+Definition filter_cuts (cn : list (list label * list label)) (cuts : list (list label)) : list (list label) :=
+  fst (fold_left (filter_step cn cuts) (py_enumerate cuts) ([], [])).
+
+(* ---- _get_subcircuits: the node set of a kept cut is the union of the node sets of its sub-cuts, closed under
+   operands down to the leaves of the cut (depth first from an explicit stack; fuel counts the evaluations of the
+   loop condition `while stack`) ---- *)
+Definition union_step (cut : list label) (cn : list (list label * list label)) (sub : list label) :=
+  cm_set cn cut (py_set_update (cm_get cn cut []) (cm_get cn sub [])).
+
+Definition close_step (cut : list label) (cs : list (list label * list label) * list label) (op : label) :=
+  if negb (memb op cut) && negb (memb op (cm_get (fst cs) cut []))
+  then (cm_set (fst cs) cut (py_set_add (cm_get (fst cs) cut []) op), snd cs ++ [op]) else cs.
+
+Fixpoint close_down (fuel : nat) (c : circuit) (cut : list label) (cn : list (list label * list label))
+         (stack : list label) : res (list (list label * list label)) :=
+  match fuel with
+  | O => Err OutOfFuel
+  | S fuel' =>
+    match rev stack with
+    | [] => Ok cn
+    | top :: below =>
+      do g <- get_gate c top;
+      let cs := fold_left (close_step cut) (gops g) (cn, rev below) in
+      close_down fuel' c cut (fst cs) (snd cs)
+    end
+  end.
+
+(* set_iter: the iteration order of a Python set (see Generated/SubcircuitAlgGen.v) *)
+Definition fill_cut (set_iter : list label -> list label) (fuel : nat) (c : circuit)
+           (cn : list (list label * list label)) (cut : list label) : res (list (list label * list label)) :=
+  let cn1 := fold_left (union_step cut) (py_powerset cut) cn in
+  close_down fuel c cut cn1 (filter (fun node => negb (memb node cut)) (set_iter (cm_get cn1 cut []))).
